@@ -30,7 +30,7 @@ def stream_cells(seed, thorough):
                              role=("server", "client")[r % 2],
                              sessions=1 if threads == 16 else (1, 2)[(ci // 3 + seed) % 2],
                              dist=r % 3, permille=(300, 0, 1000, 0, 300, 600)[r % 6], iocap=iocap,
-                             peerrcvbuf=(1, 4096, 16384)[(ci // 3 + seed) % 3], sndbuf=4096, rcvbuf=(4096, 1024, 65536)[ci % 3],
+                             peerrcvbuf=(8192, 16384, 32768)[(ci // 3 + seed) % 3], sndbuf=4096, rcvbuf=(4096, 8192, 65536)[ci % 3],
                              iochunk=(65536, 16, 1024, 4096, 65536, 16384)[r % 6] if not thorough or r % 6 != 1 else 256,
                              fin=("half", "app", "stop", "half")[r % 4], window=(1 << 20, 65536, 262144)[ci % 3],
                              hssends=(2, 1, 3, 0)[(ci + seed // 2) % 4], bytes=big, rbytes=big // 4,
@@ -40,7 +40,7 @@ def stream_cells(seed, thorough):
     # cells that make send() hit EAGAIN with an empty write queue (tiny payloads, pure kernel back-pressure)
     for j, (tls, et) in enumerate(((0, 1), (0, 0), (1, 1))):
         cells.append(dict(tls=tls, tlsmax=13, et=et, batch=j % 2, threads=4, role=("server", "client")[(j + seed) % 2], sessions=1, dist=1,
-                          permille=0, iocap=0, peerrcvbuf=1, sndbuf=4096, rcvbuf=4096, iochunk=65536, fin="half", window=1 << 20,
+                          permille=0, iocap=0, peerrcvbuf=8192, sndbuf=4096, rcvbuf=4096, iochunk=65536, fin="half", window=1 << 20,
                           hssends=2, bytes=(4 * 1024 * 1024 if thorough else 200 * 1024), rbytes=50000, pauses=400 if thorough else 100,
                           mwq=1024, fault="none", cell=ci))
         ci += 1
@@ -54,7 +54,7 @@ def stream_cells(seed, thorough):
                 et, batch = eb if eb else ((r // 2) % 2, r % 2)
                 cells.append(dict(tls=tls, tlsmax=(13, 12)[r % 2], et=et, batch=batch, threads=(2, 4, 1, 8)[r % 4],
                                   role=("server", "client")[(r // 2) % 2], sessions=1, dist=(0, 1, 0, 2)[r % 4], permille=(300, 0, 1000)[r % 3],
-                                  iocap=0, peerrcvbuf=(1, 4096)[r % 2], sndbuf=4096, rcvbuf=4096, iochunk=65536, fin="half",
+                                  iocap=0, peerrcvbuf=(8192, 16384)[r % 2], sndbuf=4096, rcvbuf=4096, iochunk=65536, fin="half",
                                   window=(65536, 262144)[r % 2], hssends=(2, 0)[r % 2],
                                   bytes=(4 * 1024 * 1024 if thorough else 300 * 1024), rbytes=(200000 if thorough else 20000),
                                   pauses=200 if thorough else 60, mwq=8 if fault == "overflow" else 1024, fault=fault, cell=ci))
@@ -135,6 +135,13 @@ def _settle(ctx, runner, first, timeout):
     if first.stalls:
         keys2 = {s["key"]: s for s in again.stalls}
         for s in first.stalls:
+            if ":kernel-not-delivering:" in s["key"]:
+                # the kernel, not the engine, sat on the bytes: never a verdict about iora
+                if s["key"] in keys2:
+                    ctx.inconcl(f"{first.tag} ({first.flavor}): {s.get('what')} — twice")
+                else:
+                    ctx.obs("kernel_delivery_pauses_not_reproduced")
+                continue
             if s["key"] in keys2:
                 d = dict(s.get("detail") or {})
                 d["reproduced_in_isolation"] = keys2[s["key"]].get("detail")
